@@ -32,6 +32,9 @@ def main(tier, replay=None):
     camp.run([], [gcgen.chain_program(m, k) for k in ("Ref", "Node") for m in ((50, 400) if quick else (50, 400, 1500))], "chain")
     camp.run([], [["reset", "chain %d %s" % (m, k)] for k in ("Ref", "Node") for m in ((3000, 20000) if quick else (1000, 5000, 20000, 30000))],
              "longchain")
+    # thousands of objects, a fraction kept through a rooted Array of Ref: the registry passes through many of its sizes
+    camp.run([], [["reset", "bulk %d %d" % (m, k)] for (m, k) in (((700, 3), (3000, 7), (12000, 2)) if quick else ((300, 1), (700, 3), (3000, 7), (12000, 2), (40000, 5), (60000, 11)))],
+             "bulk", sample=False)
     chk.cov["rule"] = ("an execution = one mutator program (allocations of every object kind and mode, pointer stores, container "
                        "insertions/removals, root drops, TLS entries, deletions, forced and threshold collections) run in its own "
                        "process; TLC recomputes reachability on the specification's graph at every step and rejects a sweep that took a "
